@@ -75,6 +75,22 @@ type NS struct {
 	L NFloat64
 }
 
+// PS is a struct whose fields are pointers to every numeric kind (abstract value [k |-> "pstruct", ptr, f]).
+type PS struct {
+	A *int
+	B *int8
+	C *int16
+	D *int32
+	E *int64
+	F *uint
+	G *uint8
+	H *uint16
+	I *uint32
+	J *uint64
+	K *float32
+	L *float64
+}
+
 var nsKinds = []string{"int", "int8", "int16", "int32", "int64", "uint", "uint8", "uint16", "uint32", "uint64", "float64"}
 
 var namedTypes = map[string]reflect.Type{
@@ -334,6 +350,26 @@ func buildRV(g any) (reflect.Value, error) {
 			mv.SetMapIndex(kv.Convert(kt), ev)
 		}
 		return mv, nil
+	case k == "pstruct":
+		fs, _ := m["f"].([]any)
+		p := reflect.New(reflect.TypeOf(PS{}))
+		if len(fs) != p.Elem().NumField() {
+			return reflect.Value{}, fmt.Errorf("pstruct needs %d fields", p.Elem().NumField())
+		}
+		for i, f := range fs {
+			fv, err := buildRV(f)
+			if err != nil {
+				return reflect.Value{}, err
+			}
+			if fv.Type() != p.Elem().Field(i).Type() {
+				return reflect.Value{}, fmt.Errorf("pstruct field %d: %v is not %v", i, fv.Type(), p.Elem().Field(i).Type())
+			}
+			p.Elem().Field(i).Set(fv)
+		}
+		if m["ptr"].(bool) {
+			return p, nil
+		}
+		return p.Elem(), nil
 	case k == "nstruct":
 		fs, _ := m["f"].([]any)
 		if len(fs) != len(nsKinds) {
